@@ -152,6 +152,31 @@ def setup_all():
     return rc
 
 
+class coq_dir_lock:
+    """advisory lock on the Coq directories a property uses: properties sharing compiled files (C04-C06, C07-C09,
+    C12/C13) may be checked in parallel; builds take the lock exclusively, evaluations share it"""
+
+    def __init__(self, files, exclusive):
+        self.dirs = sorted({f.split("/")[0] for f in files})
+        self.exclusive = exclusive
+        self.fds = []
+
+    def __enter__(self):
+        import fcntl
+        for d in self.dirs:
+            fd = open(os.path.join(COQ, d, ".lock"), "w")
+            fcntl.flock(fd, fcntl.LOCK_EX if self.exclusive else fcntl.LOCK_SH)
+            self.fds.append(fd)
+        return self
+
+    def __exit__(self, *a):
+        import fcntl
+        for fd in reversed(self.fds):
+            fcntl.flock(fd, fcntl.LOCK_UN)
+            fd.close()
+        self.fds = []
+
+
 def build_coq(files, clean=False, timeout=900):
     """compile the given .v files in the given (dependency) order with coqc when
     their .vo is missing or older than the source or an earlier file of the list
@@ -368,9 +393,10 @@ def run_check(P, tier, seed, replay=None):
         return 0
 
     # 1. proof obligations
-    if hasattr(P, "pre_build"):
-        P.pre_build()
-    build = build_coq(P.COQ_FILES, clean=(tier == "thorough"))
+    with coq_dir_lock(P.COQ_FILES, exclusive=True):
+        if hasattr(P, "pre_build"):
+            P.pre_build()
+        build = build_coq(P.COQ_FILES, clean=(tier == "thorough"))
     obligations = len(build["theorems"])
     discharged = obligations if build["ok"] else 0
     proof_broken = None
@@ -440,8 +466,9 @@ def run_check(P, tier, seed, replay=None):
     if build["ok"] and hasattr(P, "coq_case"):
         idx = [k for k in range(len(cases)) if P.coq_applicable(cases[k], observations[k])]
         terms = [P.coq_case(cases[k], observations[k]) for k in idx]
-        codes, coq_errors = eval_coq_cases(prop_id, P.COQ_PRELUDE, P.COQ_CHECK, terms,
-                                           shard=getattr(P, "SHARD", 300), case_type=getattr(P, "COQ_CASE_TYPE", None))
+        with coq_dir_lock(P.COQ_FILES, exclusive=False):
+            codes, coq_errors = eval_coq_cases(prop_id, P.COQ_PRELUDE, P.COQ_CHECK, terms,
+                                               shard=getattr(P, "SHARD", 300), case_type=getattr(P, "COQ_CASE_TYPE", None))
         n_coq = sum(1 for c in codes if c is not None)
         for k, code in zip(idx, codes):
             if code is None:
